@@ -422,7 +422,7 @@ def main():
                 found = None
                 if tier == "quick":
                     log("correspondence differs (S); searching with the thorough generator")
-                    res2, err2 = one_pass(pid, seed + 1, "thorough", "search")
+                    res2, err2 = one_pass(pid, seed + 1, "quick", "search", scale=2)
                     if res2:
                         v2 = [i for i, ch in enumerate(res2["letters"]) if ch == "V"]
                         if v2:
